@@ -9,6 +9,7 @@ import (
 	"flag"
 	"fmt"
 	"os"
+	"strings"
 	"time"
 
 	"verifsim/scen"
@@ -25,7 +26,17 @@ func main() {
 	replay := flag.String("replay", "", "params JSON file to replay")
 	verbose := flag.Bool("v", false, "dump ops")
 	secs := flag.Float64("secs", 0, "wall-clock budget (0 = none)")
+	known := flag.String("known", "", "file with known-finding signature patterns, one per line")
 	flag.Parse()
+	if *known != "" {
+		if b, err := os.ReadFile(*known); err == nil {
+			for _, l := range strings.Split(string(b), "\n") {
+				if l = strings.TrimSpace(l); l != "" {
+					scen.Known = append(scen.Known, l)
+				}
+			}
+		}
+	}
 	out := bufio.NewWriter(os.Stdout)
 	defer out.Flush()
 	enc := json.NewEncoder(out)
